@@ -294,6 +294,10 @@ func (r *Reader) readFiles(roots []string, opts walkerOpts, ignores []string) bo
 		sep = "/"
 	}
 	for _, ignore := range ignores {
+		// "foo/" is "foo": the paths we compare with have no trailing separator
+		for len(ignore) > 1 && os.IsPathSeparator(ignore[len(ignore)-1]) {
+			ignore = ignore[:len(ignore)-1]
+		}
 		if strings.ContainsRune(ignore, os.PathSeparator) {
 			if strings.HasPrefix(ignore, sep) {
 				ignoresSuffix = append(ignoresSuffix, ignore)
